@@ -691,6 +691,13 @@ class SsbGraphMinimizer:
                 # hm, this really shouldn't happen.
                 logger.warning("Warning, break node was starting node when building loop")
                 return False, None, None
+            vertices_of_loop: set[int] = set()
+            for c in continues:
+                vertices_of_loop.update(get_all_vertices_between(start.graph, start.index, c.source, path_filter))
+            if break_target.index in vertices_of_loop:
+                # The place all the ways out of the loop lead to is part of the loop itself: this is not a loop that can be
+                # written with breaks.
+                return False, None, None
             breaks_set = set(breaks)
             # Get a list of all vertices visited from the immediate break points, to the first common end point
             vertices = set()
